@@ -67,6 +67,10 @@ check("C17", "other", "compiler sanitizers over a hostile workload: AddressSanit
       "Zero sanitizer reports on the executed workload: ~10^3 (quick) / 5*10^4 (thorough) corpus inputs each driven as YAML through the public API (read sizes 1..17, random, whole; explicit and detected), with reader errors, over-reporting readers of excess 1..64 into the raw parser / chunker (hook) / public API, early drop of the parser after every event count, re-encoder boundary units; 32..320 inputs under Miri. The leak detector is shown alive by a planted leak in every run.",
       "Sanitizers see only executed paths; red-zone tools miss intra-object overflows (Miri covers part of that on a smaller workload). Panics are an allowed outcome for contract-violating readers.",
       "DESIGN.md 3/C17")
+check("C04", "exploration", "crash-isolated worker processes (catch_unwind, default 8 MiB stack, address-space limit, end-of-input read counter, progress watchdog) over corpus and adversarial inputs; wait status of the real binaries; libFuzzer+AddressSanitizer in the thorough tier",
+      "Held on every run executed: 4*10^3 (quick) / 1.5*10^5 (thorough) cases x 5 source selections x 4 targets x slice/reader (1.6*10^5 / 6*10^6 translate calls); adversarial shapes: nesting to 5*10^3..10^5, declared lengths to 2^32-1 on every marker, alias bombs, lone anchors/aliases/tags, empty input, refused nodes, long scalars, numeric edges; ~100 debug/release binary runs; thorough adds 10 minutes x 16 forks of coverage-guided fuzzing under ASan.",
+      "'Never loops forever' is decided only up to a budget (120 s without progress in a batch, then 900 s alone); a dead worker is attributed to the case it announced.",
+      "DESIGN.md 3/C04")
 
 for pid in ["C01","C03","C04","C05","C06","C07","C08","C09","C10","C11","C12","C13","C14","C15","C16","C17","C18"]:
     if pid not in CHECKS:
